@@ -156,7 +156,14 @@ def r_balance_t(rep, prog):
         tm = T.Terms(b, prog)
         maps = [t for bi, t in b.calls_to(via)]
         fed_by_update = any(T.mentions_call(tm.operand(t["args"][0]), "llfree::atomic::Atom::try_update") for t in maps)
-        rep.check(ok and fed_by_update, rule, "%s|returns-old-counter" % fn,
+        # written out as a match: getter((try_update(..) as Ok).0) in the function itself
+        direct = False
+        for bi, t in b.calls_to(getter):
+            arg = T.canon(T.strip_refs(tm.operand(t["args"][0])))
+            if arg[0] == "f" and arg[2] == 0 and arg[1][0] == "as" and arg[1][2] == "Ok" and arg[1][1][0] == "call" and \
+                    arg[1][1][1] == "llfree::atomic::Atom::try_update":
+                direct = True
+        rep.check((ok and fed_by_update) or direct, rule, "%s|returns-old-counter" % fn,
                   "returns free() of the value try_update replaced (the old counter)",
                   "%s does not return the old counter of the updated entry" % fn, b.span)
     # Locals::swap installs `free`, returns the old reservation; as_reservation reads free()
